@@ -24,6 +24,9 @@ HNext ==
     \/ \E h \in HS, g \in HS : MGetAttr(h, g) /\ H(<<"MGetAttr", h, g>>)
     \/ \E h \in HS, g \in HS : MSize(h, g) /\ H(<<"MSize", h, g>>)
     \/ \E h \in HS, g \in HS, lab \in Labels : MSetAttr(h, g, lab) /\ H(<<"MSetAttr", h, g, lab>>)
+    \/ \E h \in HS, g \in HS, f \in UseKinds : MUse(h, g, f) /\ H(<<"MUse", h, g, f>>)
+    \/ \E h \in HS, how \in MakeKinds, tokobj \in BOOLEAN, pr \in BOOLEAN, lab \in Labels : MMake(h, how, tokobj, pr, lab) /\ H(<<"MMake", h, how, tokobj, pr, lab>>)
+    \/ \E h \in HS, tokobj \in BOOLEAN, pr \in BOOLEAN, lab \in Labels : MMakePair(h, tokobj, pr, lab) /\ H(<<"MMakePair", h, tokobj, pr, lab>>)
     \/ \E h \in HS, tmpl \in TArgs : MFindAll(h, tmpl) /\ H(<<"MFindAll", h, tmpl>>)
     \/ \E h \in HS, tmpl \in TArgs : MFindInit(h, tmpl) /\ H(<<"MFindInit", h, tmpl>>)
     \/ \E h \in HS, n \in {0, 1, 2} : MFind(h, n) /\ H(<<"MFind", h, n>>)
